@@ -9,9 +9,9 @@ CLAIMED = {
          'create/get/select/alternate-id lookup/read/assign/set/sync/destroy/drop-reference/cull/pickle/unpickle, with cache on or off and '
          'any cull frequency/fraction: two held undestroyed objects for the same existing row are the same object (C04_unique); get, '
          'alternate-id lookup and select iteration hand back the very object the application holds (C04_get/byalt/select_returns_held); '
-         'unpickling an existing held row raises instead of creating a second instance (C04_unpickle_no_duplicate); with strong caching and '
-         'no unpickling a deleted row is never handed out (C04_deleted_not_returned_partial). The three open findings (expire purges the map; '
-         'cache=False hands out destroyed rows; unpickling a destroyed row) carry refutation witnesses. The model is tied to the code by '
+         'unpickling an existing held row raises instead of creating a second instance (C04_unpickle_no_duplicate); without unpickling a '
+         'deleted row is never handed out, cache on or off (C04_deleted_not_returned_partial); a destroyed instance is never registered '
+         '(C04_cached_is_current). The two open findings (expire purges the map; unpickling a destroyed row) carry refutation witnesses. The model is tied to the code by '
          'running it (vm_compute) against the real SQLObject after every operation, incl. identity tokens and cache contents.'),
    note=('Trusted: Coq kernel; the hand-written model Model/Orm.v (validated only by the correspondence); CPython refcounting and sqlite '
          'modelled; access paths in the model: get, select, alternate id, unpickle, create (foreign-key attributes and join accessors go through '
@@ -81,6 +81,75 @@ CLAIMED = {
          'only sqlite is executed. An SQLExpression (non-string) argument is outside the property.'),
    technique='Coq proof (induction over pattern and text: LIKE matcher vs literal prefix/suffix/infix) + py2coq regeneration + vm_compute correspondence against sqlite',
    design='3/C17, docs/notes/C17.md'),
+ 'C11': dict(
+   text=('Machine-checked proof (Coq 8.16.1) over Model/Query.v: for any column list, default order, orderBy argument (names, -names, id, '
+         'database names, q-fields, SQLConstant, DESC nested to any depth, lists, None, nothing) and any number of reversed() calls the '
+         'emitted ORDER BY is exactly the requested keys and directions (C11_order_emitted, C11_order_chain); any result the engine may '
+         'return is a permutation of the filtered rows sorted by those keys (C11_filter, C11_order); selectBy keyword equalities with None as '
+         'IS NULL and foreign keys as object or id (C11_selectBy*, C11_fk_*); distinct, count, sum/min/max/avg incl. empty and all-NULL sets '
+         '(C11_count, C11_sum ...), alternate-id / unique-index lookups and getOne 0/1/many (C11_altid, C11_index_get, C11_getOne_0_1_many). '
+         '_mungeOrderBy, the ORDER BY tail, DESC, reversed(), _SO_columnClause pieces, count(), getOne() and the aggregate table are '
+         'regenerated from source (Tie A); all shapes are executed on sqlite and compared (Tie B).'),
+   note=('Trusted: Coq kernel; tools/py2coq/gen_query.py + Lib/QueryPy.v; the sqlite subset semantics of Model/Query.v (three-valued WHERE, '
+         'NULL lowest in ORDER BY, ties unordered, accumulators) validated by execution only; one fixture class, single-table selects; AVG compared '
+         'as an exact fraction.'),
+   technique='Coq proof (induction over ordering specs and row lists; permutation/sortedness) + py2coq regeneration + vm_compute correspondence against sqlite',
+   design='3/C11, docs/notes/C11.md'),
+ 'C12': dict(
+   text=('Machine-checked proof (Coq 8.16.1) over Model/Cascade.v (schema graph with every cascade setting, several foreign keys per class, '
+         'self references, related joins; destroy written after destroySelf statement for statement with explicit fuel): on acyclic populations '
+         'destroySelf terminates (C12_terminates), a completed destroy equals the specification -- closure of cascade=True references deleted, '
+         "cascade='null' references nulled, link rows removed on both sides, cascade=None references untouched -- (C12_done_is_spec, C12_effect, "
+         'C12_untouched), a restricting reference from outside the closure is always noticed (C12_refusal_noticed), every destroyed row is gone '
+         'from the table and from get() on cached and uncached connections (C12_gone), and under the guards naming the open findings the code '
+         'refines the specification exactly (C12_refines_partial). Open findings (partial cascade before a deeper refusal, cascade cycles, order '
+         'dependence) carry refutation witnesses. The model is run against the real SQLObject on generated graphs/populations/victims (Tie B).'),
+   note=('Trusted: Coq kernel; Model/Cascade.v hand model (validated only by the correspondence); sqlite foreign_keys pragma off; signals, '
+         'inheritance and transactions not modelled; RecursionError cases compare the outcome only.'),
+   technique='Coq proof (refinement of a cascade-delete specification by the transcribed algorithm, fuel + acyclicity) + vm_compute correspondence against sqlite',
+   design='3/C12, docs/notes/C12.md'),
+ 'C14': dict(
+   text=('Machine-checked proof (Coq 8.16.1) over Model/Ddl.v: for every class declaration (any number of columns of the modelled kinds, any '
+         'option combination, any style) reading the CREATE TABLE token list back with a reference DDL reader gives exactly the declared column '
+         'skeleton -- same columns, order, database names, NOT NULL iff notNone/alternateID, UNIQUE iff unique/alternateID, the id primary key -- '
+         'for sqlite, postgres, firebird at full strength and the other dialects under guards naming open findings (C14_skeleton_*); the rendered '
+         'REFERENCES target/ON DELETE action equals the cascade setting where the dialect renders it (C14_fk_action_*); index statements '
+         '(C14_index); a two-sided or one-sided RelatedJoin link table is created exactly once (C14_join_table_once, C14_join_one_sided); enum '
+         'values are single literals (C14_enum_literal); style round trip on its domain; create/drop idempotence and addColumn/delColumn keeping '
+         'class and table in step with data preserved (C14_idempotent_*, C14_evolution_inv). DDL templates are regenerated from source (Tie A); '
+         'sqlite executes and introspects the DDL, the other six dialects are rendered and parsed (Tie B).'),
+   note=('Trusted: Coq kernel; tools/py2coq/gen_ddl.py (partial evaluator; characterisation by sample hole values, templates linear in their '
+         'holes); per-dialect SQL lexer of the plugin; type-name dispatch hand-modelled; only sqlite executes DDL; Set/Jsonb/Timedelta/JSON/'
+         'DecimalString/Currency columns and expression indexes not modelled.'),
+   technique='Coq proof (induction over the column list: DDL render/read round trip per dialect; schema-evolution state machine invariant) + py2coq regeneration + vm_compute correspondence against sqlite',
+   design='3/C14, docs/notes/C14.md'),
+ 'C15': dict(
+   text=('Machine-checked proof (Coq 8.16.1) over Model/Inherit.v (three-level InheritableSQLObject hierarchy with a sibling, one table per '
+         'level with childName tags, autocommit and transaction modes): over ALL histories of create (failing at any level)/get/assign/set/select/'
+         'selectBy/alternate-id lookup/destroy outside two trigger classes, the tables nest (ids of a level are ids of its parent, tags point to '
+         'existing child rows, no orphans, the tag chain ends at the class created) (C15_nesting_inv_partial); get/select through any ancestor '
+         'return the most-derived instance with the ancestor rows\' values (C15_most_derived_partial, C15_get_sound); attributes read and write the '
+         'ancestor row identically through every level (C15_attr_*); select/selectBy/lookup on a class return exactly its own kind also with '
+         'inherited-column filters (C15_select_own_kind ...); destroy removes the rows of every level (C15_destroy_all_levels_partial); a failed '
+         'create leaves nothing (C15_failed_create_leaves_nothing_partial). The two open findings carry refutation witnesses. The model is run '
+         'against the real SQLObject after every step (Tie B).'),
+   note=('Trusted: Coq kernel; Model/Inherit.v hand model (validated only by the correspondence); SQL semantics as definitions; the identity map '
+         'is not modelled (warm and cold cache histories both run); orderBy, lazyColumns, events, lazyUpdate outside the model.'),
+   technique='Coq proof (nesting invariant over all histories of an inheritance model) + vm_compute correspondence against sqlite',
+   design='3/C15, docs/notes/C15.md'),
+ 'C18': dict(
+   text=('Machine-checked proof (Coq 8.16.1) over Model/Uri.v and a transcription of urllib.parse (Lib/UriPy.v): unquote(quote(s)) = s for '
+         'every string and safe set (C18_quote_unquote), quote with no safe characters emits only unreserved characters and percent escapes '
+         '(C18_no_reserved_leak), parse(build(user, password, host or IPv6 address, port, db)) gives back exactly those components for all '
+         'code-point strings in the stated domain (C18_roundtrip_partial: guard = a password needs a user, no extra parameters), an out-of-range '
+         'or non-numeric port is rejected by builder and parser (C18_bad_port_build, C18_bad_port_rejected), the sqlite URI of an absolute path '
+         'or :memory: reopens the same file (C18_sqlite_partial). uri(), SQLiteConnection.uri and _connectionFromParams are regenerated from '
+         'source (Tie A); built texts, parsed components and reopened sqlite file names are compared with the real code (Tie B).'),
+   note=('Trusted: Coq kernel; tools/py2coq/gen_uri.py; Lib/UriPy.v (transcription of CPython 3.12 urllib.parse/ipaddress string parsing, '
+         'validated only by the correspondence); parse_uri hand transcription; non-ASCII netlocs answer "unmodelled"; connection cache of '
+         'connectionForURI not modelled.'),
+   technique='Coq proof (induction over code-point strings: percent-encoding and URI split/parse round trip) + py2coq regeneration + vm_compute correspondence against the real parser and sqlite',
+   design='3/C18, docs/notes/C18.md'),
  'C16': dict(
    text=('Machine-checked proof (Coq 8.16.1) over the ORM model Model/Orm.v: for every history (any operations, failures, injected faults, '
          'out-of-band SQL, any cache configuration) the dirty flag of every held object is true exactly while assignments are pending '
